@@ -969,8 +969,7 @@ class HTTPResponse(BaseHTTPResponse):
             # At the end of the body a decoder that has seen data must still
             # be flushed so that it can report a truncated stream.
             and not (
-                amt is not None
-                and data is not None
+                data is not None
                 and flush_decoder
                 and decode_content
                 and self._has_decoded_content
@@ -1092,7 +1091,7 @@ class HTTPResponse(BaseHTTPResponse):
                 if data:
                     yield data
 
-            if amt is not None and self._has_decoded_content:
+            if self._has_decoded_content:
                 # The body has ended: read once more so that the decoder is
                 # flushed and can report a truncated stream.
                 data = self.read(amt=amt, decode_content=decode_content)
